@@ -374,14 +374,22 @@ def loadLine (md : ModelDef) (p g : List (String × Store)) (pt : String) (rule 
     | _, _ => none
   else none
 
-/-- stable insertion sort by numeric priority (the effect of `sort.SliceStable` with the code's
-    comparator when every priority parses) -/
-def insertByPrio (pi : Nat) (r : Rule) : List Rule → List Rule
-  | [] => [r]
-  | q :: rest =>
-      match atoi (r.getD pi ""), atoi (q.getD pi "") with
-      | some a, some b => if a < b then r :: q :: rest else q :: insertByPrio pi r rest
-      | _, _ => q :: insertByPrio pi r rest
+/-- the comparator of `SortPoliciesByPriority`: a priority that does not parse compares as
+    "less" whichever side it is on (kept as written; it is inconsistent on such values) -/
+def prioLess (pi : Nat) (r q : Rule) : Bool :=
+  match atoi (r.getD pi "") with
+  | none => true
+  | some a =>
+      match atoi (q.getD pi "") with
+      | none => true
+      | some b => a < b
+
+/-- one step of the insertion sort that `sort.SliceStable` runs on short slices: the new element
+    moves towards the front past every element it is less than, starting from the back -/
+def insertByPrio (pi : Nat) (r : Rule) (sorted : List Rule) : List Rule :=
+  let moved := sorted.reverse.takeWhile (fun q => prioLess pi r q)
+  let keep := sorted.reverse.dropWhile (fun q => prioLess pi r q)
+  keep.reverse ++ [r] ++ moved.reverse
 
 def sortByPrio (pi : Nat) (rules : List Rule) : List Rule :=
   rules.foldl (fun acc r => insertByPrio pi r acc) []
